@@ -20,6 +20,7 @@ META = {
         "by-reference parameters do not alias",
     ],
 }
+META["explanation"] += " " + "(ZB-past) in the number formatter no raw access to the stream's buffer is provably at or beyond Length(), or in front of the number being formatted, on some path (definite verdict with one step of path sensitivity; in-range is not decided there). (OUT-def) a kind arm that assigns the pointer out-parameter whose null-ness is the validity signal assigns it on every path through the arm. (NULL-first) a pointer taken from First()/Last()/Storage() of another container is dereferenced only where a dominating test excludes null (two invariant-based exceptions are listed with their reason)."
 META["explanation"] += " " + '(PROG) the same progress rule as C05 over the template scanner, attribute parsers, expression scanner, finder, string utilities and number formatter/scanner loops; the tag loops driven by finder.GetMatch(), pointer-walking loops over tag arrays and the loop-item growth loop are listed as not decided.'
 
 ZONE_KEYS = [
